@@ -301,6 +301,13 @@ def step(op, env):
         return V(a.names, a.sizes, a.arr.reshape(tuple(a.arr.shape[: len(a.names)]) + tuple(op["shape"])))
     if t == "align":
         return env[op["a"]]
+    if t == "opeinsum":
+        parts = [env[p] for p in op["parts"]]
+        names, sizes = _union(parts)
+        ins, out = op["equation"].split("->")
+        arrs = [_expand(p, names, sizes) for p in parts]
+        eq = ",".join("..." + i for i in ins.split(",")) + "->..." + out
+        return V(names, sizes, np.einsum(eq, *arrs))
     if t == "integrate":  # sum over the (integer) variables of exp(log_measure) * integrand
         lm, f = env[op["a"]], env[op["b"]]
         if lm.event:
